@@ -231,8 +231,9 @@ def case_mean_range(ctx, nf, nbins, j0, fmax_idx=None, generic=False):
     s = C.make_1d(ctx, f, e, "time1", a1=a1, b1=b1, a2=a1 * 0, b2=b1 * 0)
     im = nf - 1 if fmax_idx is None else fmax_idx      # the range must end below the bin nearest fmax
     assert j0 + nbins <= im
-    out = W.friction_velocity(s, "mean", fmax=float(f[im]) if ctx.mode == "conc" else float(f[im].v),
-                              number_of_bins=nbins)
+    # through the public entry point (which has to forward fmax and number_of_bins)
+    out = W.estimate_u10_from_spectrum(s, "mean", fmax=float(f[im]) if ctx.mode == "conc" else float(f[im].v),
+                                       number_of_bins=nbins)
     us = C.values(out["friction_velocity"])[0]
     ctx.reach("D-MEAN.range")
     ctx.check(ctx.close(us, _ustar_ref(ctx, c, 2.5, 0.012)), "D-MEAN.range",
